@@ -794,8 +794,38 @@ def _r5(repo, L, m, ba):
             for g in guards:
                 side = any(nested[0] is s_ or contains(s_, nested[0]) for s_ in g.body)
                 facts = [(norm(t).replace(" ", ""), v) for t, v in cond_facts(g.test, side)]
-                if not all(t in (f"{sv}.rows", f"len({sv}.rows)") and v for t, v in facts):
-                    bad_g.append(norm(g.test)[:60])
+                raw = cond_facts(g.test, side)
+                if all(t in (f"{sv}.rows", f"len({sv}.rows)") and v for t, v in facts):
+                    continue
+                # entering the loop only when NOT (… and every fragment is already recorded as found) skips nothing that
+                # the loop would have re-added
+                def all_found(e):
+                    return (
+                        isinstance(e, ast.Call) and dotted(e.func) == "all" and len(e.args) == 1 and isinstance(e.args[0], ast.GeneratorExp | ast.ListComp)
+                        and len(e.args[0].generators) == 1 and not e.args[0].generators[0].ifs
+                        and norm(e.args[0].generators[0].iter) in (f"{sv}.fragments()",)
+                        and isinstance(e.args[0].elt, ast.Call) and isinstance(e.args[0].elt.func, ast.Attribute) and e.args[0].elt.func.attr == "get"
+                        and norm(resolve_local(addm, e.args[0].elt.func.value)) == "self.found_fragments"
+                        and len(e.args[0].elt.args) == 1 and norm(e.args[0].elt.args[0]) == f"{e.args[0].generators[0].target.id}.key_tuple"
+                    )
+
+                def skip_needs_all_found(t, v):
+                    # fact (t is v) holds on the path INTO the loop; the skipped case is its negation
+                    if not v:
+                        inner_ = t
+                        conj = inner_.values if isinstance(inner_, ast.BoolOp) and isinstance(inner_.op, ast.And) else [inner_]
+                        return any(all_found(c_) for c_ in conj)
+                    return False
+
+                if any(skip_needs_all_found(t, v) for t, v in raw):
+                    continue
+                # conditions on things the analysis cannot relate to the scaffold's contigs (calls into helpers) are not understood;
+                # conditions on mutable program state (membership in a populated collection) can hold for a scaffold with unseen contigs
+                from .c09 import _is_state_test
+
+                if not all(_is_state_test(repo, t) or nt in (f"{sv}.rows", f"len({sv}.rows)") for (t, v), (nt, _) in zip(raw, facts)):
+                    raise AnalysisError(f"{addm.short}: the fragments of an input scaffold are visited under '{norm(g.test)[:70]}', a condition the rule cannot relate to the contigs still missing")
+                bad_g.append(norm(g.test)[:60])
             if bad_g:
                 L.fail("R5", addm.short + ":no-scaffold-skip", f"the fragments of an input scaffold are only visited when {bad_g}: otherwise the scaffold is skipped as a whole and contigs of it that no lookup returned are never re-added (lost)", addm.loc(), witness={"input": "a scaffold the Pretext map covers only in part (texel-snapped tail contig)"})
                 return
